@@ -487,3 +487,106 @@ class e2e_palette:
         "palette-honours-indices-and-holds-every-colour": lambda glyphs, result: _palette_problems(glyphs, result) == [],
         "same-picture-at-sample-points": lambda glyphs, result: _picture_mismatches(glyphs, result, _colr_eval) == [],
     }
+
+
+# ---------------------------------------------------------------------------- congruent copies (C19)
+
+
+def _gen_copies(rng):
+    import math
+
+    vb = (0, 0, 128, 128)
+    kind = rng.choice(["tri", "quad", "L"])
+    if kind == "tri":
+        base = [(20, 20), (44, 26), (28, 45)]
+    elif kind == "quad":
+        base = [(20, 20), (46, 24), (42, 44), (24, 40)]
+    else:
+        base = [(20, 20), (50, 20), (50, 30), (30, 30), (30, 50), (20, 50)]
+    copies = [base]
+    for _ in range(rng.randint(1, 3)):
+        cx, cy = 35, 35
+        k = rng.choice(["t", "rot", "flip", "vflip"])
+        if k == "t":
+            m = (1, 0, 0, 1, 0, 0)
+        elif k == "rot":
+            a = math.radians(rng.choice([30, 45, 90, 180, -60]))
+            ca, sa = math.cos(a), math.sin(a)
+            m = (ca, sa, -sa, ca, cx - ca * cx + sa * cy, cy - sa * cx - ca * cy)
+        elif k == "flip":
+            m = (-1, 0, 0, 1, 2 * cx, 0)
+        else:
+            m = (1, 0, 0, -1, 0, 2 * cy)
+        dx, dy = rng.choice([(40, 0), (0, 50), (55, 48), (30, 60)])
+        pts = [(round(x + dx, 3), round(y + dy, 3)) for x, y in e2e._xform_pts(base, m)]
+        copies.append(pts)
+    across = rng.random() < 0.5
+    glyphs = []
+    if across:
+        for i, pts in enumerate(copies):
+            glyphs.append(e2e.GlyphSpec(vb, [e2e.Shape(pts, e2e.Solid(e2e._rgb(rng)))], (0xE000 + i,)))
+    else:
+        glyphs.append(e2e.GlyphSpec(vb, [e2e.Shape(pts, e2e.Solid(e2e._rgb(rng))) for pts in copies], (0xE000,)))
+    fmt = rng.choice(["glyf_colr_1", "picosvg"])
+    return {"glyphs": glyphs, "overrides": dict(color_format=fmt, output_file="out.ttf", reuse_tolerance=rng.choice([0.1, 0.1, -1]))}
+
+
+def _storage_problems(glyphs, overrides, result):
+    font = result["font"]
+    n = sum(len(list(e2e.all_shapes(g))) for g in glyphs)
+    reuse = overrides["reuse_tolerance"] != -1
+    bad = []
+    if "COLR" in font:
+        ev = e2e.ColrEval(font)
+        names = set()
+        for g in glyphs:
+            ev.leaves = []
+            ev.glyph_color(_name(g), (1e9, 1e9))  # walk the graph
+            # collect every PaintGlyph reachable
+
+            def walk(p):
+                if p.Format == 10:
+                    names.add(p.Glyph)
+                for a in ("Paint", "SourcePaint", "BackdropPaint"):
+                    ch = getattr(p, a, None)
+                    if ch is not None:
+                        walk(ch)
+                if p.Format == 1:
+                    for i in range(p.FirstLayerIndex, p.FirstLayerIndex + p.NumLayers):
+                        walk(ev.layers[i])
+
+            walk(ev.base[_name(g)])
+        if reuse and len(names) != 1:
+            bad.append(("congruent copies drawn from several outline glyphs", sorted(names)))
+        if not reuse and len(names) != n:
+            bad.append(("reuse disabled but outlines are shared", sorted(names), n))
+    else:
+        paths = uses = 0
+        for s_, e_, root in _svg_docs(font):
+            for el in root.iter():
+                t = e2e._local(el)
+                paths += t == "path"
+                uses += t == "use"
+        if reuse and (paths != 1 or uses < n - 1):
+            bad.append(("congruent copies are not drawn through <use> of one path", paths, uses, n))
+        if not reuse and paths != n:
+            bad.append(("reuse disabled but paths are shared", paths, n))
+    return bad
+
+
+@contract("nanoemoji.glyph_reuse.GlyphReuseCache.try_reuse", props=["C19"])
+class e2e_congruent_copies:
+    bounded_only = True
+    gen = _gen_copies
+    native_call = _build
+    n_quick = 40
+    n_thorough = 600
+    ensures = {
+        # copies that differ by translation, rotation or reflection are stored once when reuse
+        # is on, and separately only when it is disabled
+        "stored-once": lambda glyphs, overrides, result: _storage_problems(glyphs, overrides, result) == [],
+        "same-picture-at-sample-points": lambda glyphs, overrides, result: _picture_mismatches(
+            glyphs, result, _colr_eval if overrides["color_format"] == "glyf_colr_1" else _otsvg_eval, otsvg=overrides["color_format"] != "glyf_colr_1"
+        )
+        == [],
+    }
